@@ -1,6 +1,8 @@
 // Command mon runs one property's workload under its monitor:
-//   mon Cxx            (tier from VERIF_TIER, seed from VERIF_SEED)
-//   mon --replay file  re-executes one recorded refuting event against the current tree
+//
+//	mon Cxx            (tier from VERIF_TIER, seed from VERIF_SEED)
+//	mon --replay file  re-executes one recorded refuting event against the current tree
+//
 // One OS process per property.
 package main
 
